@@ -256,7 +256,7 @@ func (w *walker) validate(structName string, value reflect.Value, gather bool, o
 	}
 	for i := 0; i < ty.NumField(); i++ {
 		sf := ty.Field(i)
-		if sf.Type == timeType || sf.Name == "" || !(sf.Name[0] >= 'A' && sf.Name[0] <= 'Z') {
+		if sf.Type == timeType || !sf.IsExported() {
 			continue
 		}
 		rules := sf.Tag.Get(w.o.Tag)
